@@ -2,7 +2,11 @@
    Input (stdin): lines  "H" (new history) | "<op> args..." | "E" (end of history).
    Output: one line per input line:  "<result> ; h:esz:cnt:hexbytes ..." (all live handles, ascending),
    "H" for H and "status <sc_memory_status (-1) relative to the start of the history>" for E.
-   Integers are hexadecimal, byte strings are hex pairs ("-" = empty).  Pointers and byte_alloc are never printed. */
+   Integers are hexadecimal, byte strings are hex pairs ("-" = empty).  Pointers and allocation sizes are never printed.
+   Every operation line ends with " | <sc_memory_status (-1) relative to the start of the history, decimal> h:K:P:B ..." for all
+   live handles: K = o (owner, byte_alloc >= 0) | v (view), P = N (array == NULL) | P, B = Z (byte_alloc == 0) | A.  This is the
+   RELEASED STATE the documentation speaks about ("the effect equals sc_array_reset", "a newly initialized array", "memory
+   neutral"); it is judged by the reference of the check alone and is not part of the comparison with the extracted model. */
 #include <sc.h>
 #include <sc_containers.h>
 
@@ -11,6 +15,7 @@ static sc_array_t   sarr[NH];
 static sc_array_t  *parr[NH];
 static int          kind[NH];   /* 0 free, 1 static struct, 2 created by sc_array_new* */
 static size_t       g_esz;
+static int          g_base;     /* sc_memory_status at the start of the history */
 
 static int cmp_mem (const void *a, const void *b) { return memcmp (a, b, g_esz); }
 static size_t type_first (sc_array_t * array, size_t index, void *data)
@@ -54,6 +59,13 @@ static void observe (void)
       for (i = 0; i < a->elem_count; ++i) pbytes ((unsigned char *) sc_array_index (a, i), a->elem_size);
     }
   }
+  printf (" | %d", sc_memory_status (-1) - g_base);
+  for (h = 0; h < NH; ++h) {
+    if (kind[h]) {
+      sc_array_t *a = parr[h];
+      printf (" %x:%c:%c:%c", h, a->byte_alloc < 0 ? 'v' : 'o', a->array == NULL ? 'N' : 'P', a->byte_alloc == 0 ? 'Z' : 'A');
+    }
+  }
   fputs ("\n", stdout);
 }
 static sc_array_t *mk (int dyn, int h) { kind[h] = dyn ? 2 : 1; if (!dyn) parr[h] = &sarr[h]; return parr[h]; }
@@ -61,7 +73,6 @@ static sc_array_t *mk (int dyn, int h) { kind[h] = dyn ? 2 : 1; if (!dyn) parr[h
 int main (void)
 {
   static char line[1 << 22];
-  int base = 0;
   sc_set_log_defaults (NULL, NULL, SC_LP_SILENT);
   while (fgets (line, sizeof line, stdin)) {
     char *tok[16]; int n = 0;
@@ -72,11 +83,11 @@ int main (void)
     for (int i = 1; i < n; ++i) a[i] = parse (tok[i]);
     if (!strcmp (op, "H")) {
       for (int h = 0; h < NH; ++h) kind[h] = 0;
-      base = sc_memory_status (-1);
+      g_base = sc_memory_status (-1);
       puts ("H");
       continue;
     }
-    if (!strcmp (op, "E")) { printf ("status %x\n", sc_memory_status (-1) - base); continue; }
+    if (!strcmp (op, "E")) { printf ("status %x\n", sc_memory_status (-1) - g_base); continue; }
     unsigned char *d = NULL; size_t dl = 0;
     int h = (int) a[1];
     if (!strcmp (op, "init")) {
@@ -118,6 +129,8 @@ int main (void)
       kind[h] = 0; fputs ("-", stdout);
     }
     else if (!strcmp (op, "drop")) { sc_array_reset (parr[h]); kind[h] = 0; fputs ("-", stdout); }
+    /* a static struct is forgotten WITHOUT a call: legal for a view and for an array that was released by a reset-equivalent */
+    else if (!strcmp (op, "abandon")) { memset (parr[h], 0x5a, sizeof (sc_array_t)); kind[h] = 0; fputs ("-", stdout); }
     else if (!strcmp (op, "trunc")) { sc_array_truncate (parr[h]); fputs ("-", stdout); }
     else if (!strcmp (op, "rewind")) { sc_array_rewind (parr[h], (size_t) a[2]); fputs ("-", stdout); }
     else if (!strcmp (op, "resize")) {
